@@ -515,6 +515,8 @@ class Module(ABC):
         Returns:
             View with the specified scope."""
         view = self.view
+        # Only the scope changes: lazy indexing and iteration continue at the same level.
+        view._current_view = self._current_view
         view.set_scope(scope)
         return view
 
